@@ -525,9 +525,12 @@ package raft
 //@ loop 2 invariant forall k uint64 :: k in nodes ==> (k in r.remotes && nodes[k] == r.remotes[k]) || (k in r.witnesses && nodes[k] == r.witnesses[k])
 
 // heavy callees of becomeLeader whose bodies are not (yet) under contract
-//@ func (r *raft) preLeaderPromotionHandleConfigChange [C03]
-//@ trusted body not verified: scans the uncommitted log suffix for config-change entries
+// C07: a new leader that finds an uncommitted config change in its log starts with the
+// "config change pending" flag set (so a second change cannot be proposed while the first is in flight)
+//@ func (r *raft) preLeaderPromotionHandleConfigChange [C03 C07]
+//@ requires r.wf()
 //@ modifies r.pendingConfigChange
+//@ ensures r.wf()
 
 // C02-M1 / C18: the leader commits by counting a quorum of match indexes of VOTING members only.
 // sortMatchValues: ascending order, same multiset (explicit for the unrolled three-member case;
